@@ -187,3 +187,65 @@ pub assume_specification<T>[ Option::<T>::unwrap_unchecked ](o: Option<T>) -> (r
     requires o is Some,
     ensures Some(r) == o,
 ;
+
+// ---- iteration over a BitMask and the dyn equality callback (rules R7 / R8) ----
+// contracts of BitMaskIter::next / into_iter / any_bit_set / match_tag: proved complete by the CBMC
+// obligations h_bitmask and h_group; EqDyn: a deterministic callback is a function of its argument
+pub struct BitMaskIter { pub lanes: Ghost<Seq<bool>>, pub pos: Ghost<int> }
+impl BitMaskIter {
+    #[verifier::external_body]
+    pub fn next(&mut self) -> (r: Option<usize>)
+        requires 0 <= old(self).pos@ <= old(self).lanes@.len(),
+        ensures
+            final(self).lanes@ == old(self).lanes@,
+            r matches Some(b) ==> old(self).pos@ <= b < old(self).lanes@.len() && old(self).lanes@[b as int] && final(self).pos@ == b + 1
+                && (forall|k: int| old(self).pos@ <= k < b ==> !old(self).lanes@[k]),
+            r is None ==> (forall|k: int| old(self).pos@ <= k < old(self).lanes@.len() ==> !old(self).lanes@[k]) && final(self).pos@ == old(self).lanes@.len(),
+    { unimplemented!() }
+}
+impl BitMask {
+    #[verifier::external_body]
+    pub fn into_iter(self) -> (r: BitMaskIter)
+        ensures r.lanes@ == self.lanes@, r.pos@ == 0,
+    { unimplemented!() }
+    #[verifier::external_body]
+    pub fn any_bit_set(self) -> (r: bool)
+        ensures r == (exists|k: int| 0 <= k < self.lanes@.len() && self.lanes@[k]),
+    { unimplemented!() }
+}
+impl Group {
+    #[verifier::external_body]
+    pub fn match_tag(self, tag: Tag) -> (r: BitMask)
+        requires self.bytes@.len() == Group::WIDTH, tag.0 < 0x80,
+        ensures
+            r.lanes@.len() == Group::WIDTH,
+            forall|k: int| #![trigger r.lanes@[k]] #![trigger self.bytes@[k]] 0 <= k < Group::WIDTH ==> {
+                &&& (self.bytes@[k] == tag.0 ==> r.lanes@[k])
+                &&& (r.lanes@[k] ==> self.bytes@[k] < 0x80u8)
+            },
+    { unimplemented!() }
+}
+pub struct EqDyn { pub f: Ghost<spec_fn(usize) -> bool> }
+impl EqDyn {
+    #[verifier::external_body]
+    pub fn call(&mut self, i: usize) -> (r: bool)
+        ensures r == (old(self).f@)(i), final(self).f@ == old(self).f@,
+    { unimplemented!() }
+}
+
+
+impl RawTableInner {
+/// no bucket of window j (of the probe sequence from `start`) with the wanted tag is accepted by eq
+pub open spec fn window_rejects(&self, start: int, j: nat, tag: u8, f: spec_fn(usize) -> bool) -> bool {
+    forall|t: int| 0 <= t < Group::WIDTH ==>
+        (#[trigger] self.win(spec_pos(start, self.nb(), j), t) == tag ==> !f(((spec_pos(start, self.nb(), j) + t) % self.nb()) as usize))
+}
+
+/// what a `None` answer of find_inner certifies: windows 0..=kk were probed, every bucket in them
+/// carrying the tag was rejected by eq, and window kk holds an EMPTY byte (the probe may stop)
+pub open spec fn none_witness(&self, start: int, kk: nat, tag: u8, f: spec_fn(usize) -> bool) -> bool {
+    &&& (forall|j: nat| j <= kk ==> #[trigger] self.window_rejects(start, j, tag, f))
+    &&& (exists|t: int| 0 <= t < Group::WIDTH && #[trigger] self.win(spec_pos(start, self.nb(), kk), t) == 0xFFu8)
+}
+
+}
